@@ -3,5 +3,5 @@ CONSTANTS
   Alphabet <- AlphaTiny
 INIT Init
 NEXT Next
-INVARIANTS Satisfiable Sensitive
+INVARIANTS Satisfiable SatisfiableOpen Sensitive
 CHECK_DEADLOCK FALSE
